@@ -21,6 +21,8 @@
 //	      Upgrader.Upgrade; fragmented, compressed, oversized and invalid input,
 //	      every segmentation, payload release on/off, OnDataFrame on/off,
 //	      WriteMessage in between, CloseAndClean in the middle of a message
+//	sendq the asynchronous send queue of a blocking-mode WebSocket connection (sendq.go)
+//	connq the write queue of a core connection on a real socket with a backlog (connq.go)
 package main
 
 import (
@@ -36,13 +38,14 @@ import (
 )
 
 type caseT struct {
-	Workload string           `json:"workload"` // resp | http | ws | sendq
+	Workload string           `json:"workload"` // resp | http | ws | sendq | connq
 	Index    int              `json:"index"`
 	Readable string           `json:"readable,omitempty"`
 	Program  *respgen.Program `json:"program,omitempty"`
 	HTTP     *httpCase        `json:"http,omitempty"`
 	WS       *wsCase          `json:"ws,omitempty"`
 	SendQ    *sendqCase       `json:"sendq,omitempty"`
+	ConnQ    *connqCase       `json:"connq,omitempty"`
 }
 
 type worker struct {
@@ -60,6 +63,7 @@ type worker struct {
 	upEngines   map[bool]*upEngine
 
 	faultStopped bool
+	connqBase    int // stream offset of the connq peer's reader
 }
 
 // sigOf builds the signature of one ownership report.
@@ -206,6 +210,8 @@ func main() {
 			w.runWS(c)
 		case "sendq":
 			w.runSendQ(c)
+		case "connq":
+			w.runConnQ(c)
 		}
 		w.cur = nil
 	}
@@ -282,6 +288,14 @@ func main() {
 	for i := 0; i < nSendQ; i++ {
 		i := i
 		step("sendq", i, func() *caseT { return genSendQ(r, i) })
+	}
+	nConnQ := r.N(600, 24000)
+	if *fault {
+		nConnQ /= 8
+	}
+	for i := 0; i < nConnQ; i++ {
+		i := i
+		step("connq", i, func() *caseT { return genConnQ(r, i) })
 	}
 	w.ga.Sweep()
 	for _, rep := range env.TakeGuard() {
